@@ -517,6 +517,32 @@ fn gen_raw(rng: &mut Rng, tier: Tier) -> Raw {
         .map(|_| (rng.pick(QUERIES).to_string(), rng.chance(1, 2)))
         .collect();
     let probes = if rng.chance(1, 8) { (0..rng.range(4, 33)).map(|_| gen_probe(rng)).collect() } else { vec![] };
+    // scale stream for `load` / `get_closest`: a dictionary of 1100..3300 short keys with few distinct frequencies, so that
+    // every query has many entries at the minimal distance, with different frequencies, spread over the whole map
+    // (an answer computed piecewise — chunks, parallel partial results — must still be the most frequent of ALL ties)
+    let (dfile, queries): (String, Vec<(String, bool)>) = if rng.chance(1, 250) {
+        let alpha: Vec<char> = "abcdef".chars().collect();
+        let want = rng.range(1100, 3300);
+        let mut keys: Vec<String> = vec![];
+        let mut seen = std::collections::HashSet::new();
+        while keys.len() < want {
+            let len = rng.range(3, 5);
+            let k: String = (0..len).map(|_| alpha[rng.below(alpha.len())]).collect();
+            if seen.insert(k.clone()) {
+                keys.push(k);
+            }
+        }
+        let nf = rng.range(2, 6);
+        let mut f = String::new();
+        for k in &keys {
+            f.push_str(&format!("{k}\t{}\n", 1 + rng.below(nf)));
+        }
+        let qs = ["ab", "abx", "xyz", "abcdex", "a", "fedcba", "bbbbbbb", "ca fe"];
+        let queries = (0..rng.range(2, 5)).map(|_| (rng.pick(&qs[..]).to_string(), rng.chance(1, 2))).collect();
+        (f, queries)
+    } else {
+        (dfile, queries)
+    };
     Raw { chars, cg, max_size, max_seq, threads, files, arr, hp, dfile, queries, probes }
 }
 
